@@ -1783,6 +1783,9 @@ def process_pipeline(collection, database, pipeline, session):
         raise NotImplementedError('Mongomock does not handle sessions yet')
 
     for stage in pipeline:
+        if len(stage) != 1:
+            raise OperationFailure(
+                'A pipeline stage specification object must contain exactly one field.')
         for operator, options in stage.items():
             try:
                 handler = _PIPELINE_HANDLERS[operator]
